@@ -52,7 +52,10 @@ SemInstrs(c, scale, cpylines) ==
               [] i.cls = "RAW" -> i.arg
               [] OTHER -> 0,
             IF i.cls = "JREL" THEN 1 ELSE 0,
-            cpylines[i.off \div 2 + 1]>>]
+            cpylines[i.off \div 2 + 1],
+            \* the line CPython reports while the instruction runs (f_lasti is at the opcode unit,
+            \* behind any EXTENDED_ARG prefix)
+            cpylines[i.opoff \div 2 + 1]>>]
 
 Sem(c, scale, cpylines) ==
     [instrs |-> SemInstrs(c, scale, cpylines),
